@@ -41,11 +41,13 @@ pub struct Profile {
     pub dir: String,
     pub tables: bool,
     pub refs: bool,
+    /// links inside paragraphs / headings / items to other notes (block references are `refs`)
+    pub inline_note_links: bool,
 }
 
 impl Default for Profile {
     fn default() -> Self {
-        Profile { wf: true, max_blocks: 8, max_depth: 3, keys: vec![], dir: String::new(), tables: true, refs: true }
+        Profile { wf: true, max_blocks: 8, max_depth: 3, keys: vec![], dir: String::new(), tables: true, refs: true, inline_note_links: true }
     }
 }
 
@@ -66,7 +68,11 @@ impl<'a> DocGen<'a> {
     }
 
     pub fn link_url(&mut self) -> String {
-        if !self.p.keys.is_empty() && self.r.chance(4, 5) {
+        self.link_url_for(true)
+    }
+
+    pub fn link_url_for(&mut self, block_ref: bool) -> String {
+        if !self.p.keys.is_empty() && self.r.chance(4, 5) && (block_ref || self.p.inline_note_links) {
             let k = self.r.pick(&self.p.keys).clone();
             let rel = liwe::model::Key::from_file_name(&k).to_rel_link_url(&self.p.dir);
             let rel = if rel.is_empty() { k.clone() } else { rel };
@@ -90,12 +96,12 @@ impl<'a> DocGen<'a> {
                 9 => I::Strong(self.words(1, 2)),
                 10 => I::Strike(self.words(1, 2)),
                 11 => {
-                    let url = self.link_url();
+                    let url = self.link_url_for(false);
                     I::Link { text: self.words(1, 2), url }
                 }
                 12 => {
                     if self.r.chance(1, 2) {
-                        let url = self.link_url();
+                        let url = self.link_url_for(false);
                         let url = url.trim_end_matches(".md").to_string();
                         if url.contains("://") || url.contains("mailto:") {
                             I::Word(self.word())
